@@ -123,6 +123,18 @@ class History:
     def op_change(self, k):
         d = self.docs[k]
         text = model.make_text(self.rng, WORDS)
+        base = d.get("client_text")
+        if base is not None and self.rng.random() < 0.3:
+            # an edit that leaves every sentence alone and changes what another paragraph means for them: a sentence with
+            # bracketed words is added once, then a paragraph of link reference definitions for those words comes and goes
+            # (in Markdown the brackets are link syntax exactly while the definition exists)
+            defs = "\n\n[baited]: http://example.com/b\n[tset]: http://example.com/t\n"
+            if "[baited]" not in base:
+                text = base.rstrip("\n") + "\n\nWe waited with [baited] breath and a [tset] too.\n"
+            elif defs in base:
+                text = base.replace(defs, "\n")
+            else:
+                text = base.rstrip("\n") + defs
         n = self.server.n_publishes(d["uri"])
         if self.rng.random() < 0.3:
             # one notification carrying several full-text changes: the last one is the document
